@@ -13,17 +13,54 @@ Inductive ksrc :=
 | KFlags         (* (abi << 1) | ellipsis *)
 | KNargs         (* number of arguments *)
 | KArgsStored    (* PyTuple_GET_ITEM(fct->ct_stuff, 2 + i): the DECAYED arguments the function type stores *)
-| KArgsRaw.      (* PyTuple_GET_ITEM(fargs, i): the caller's tuple, arrays not decayed, not kept alive *)
+| KArgsRaw       (* PyTuple_GET_ITEM(fargs, i): the caller's tuple, arrays not decayed, not kept alive *)
+| KOther.        (* any other expression (the regenerated file quotes it): a word the model knows nothing about *)
 
 Definition ksrc_eqb (a b : ksrc) : bool :=
   match a, b with
   | KStatic, KStatic | KItem, KItem | KPtr, KPtr | KLen, KLen | KResult, KResult | KFlags, KFlags
-  | KNargs, KNargs | KArgsStored, KArgsStored | KArgsRaw, KArgsRaw => true
+  | KNargs, KNargs | KArgsStored, KArgsStored | KArgsRaw, KArgsRaw | KOther, KOther => true
   | _, _ => false
   end.
 Fixpoint klist_eqb (a b : list ksrc) : bool :=
   match a, b with
   | [], [] => true
   | x :: a', y :: b' => ksrc_eqb x y && klist_eqb a' b'
+  | _, _ => false
+  end.
+
+(* ---- vocabulary for the regenerated cache protocol (C27/Gen.v) *)
+
+(* the steps of ctypedescr_dealloc, in source order *)
+Inductive dstep :=
+| DClearWeakrefs   (* PyObject_ClearWeakRefs(ct): weakref callbacks run here, the cache's weakref dies *)
+| DRemoveKey       (* if (ct->ct_unique_key != NULL) remove_dead_unique_reference(ct->ct_unique_key) *)
+| DDecrefItem      (* Py_XDECREF(ct->ct_itemdescr) *)
+| DDecrefStuff     (* Py_XDECREF(ct->ct_stuff) *)
+| DFree.           (* tp_free: the address becomes reusable *)
+Definition dstep_eqb (a b : dstep) : bool :=
+  match a, b with
+  | DClearWeakrefs, DClearWeakrefs | DRemoveKey, DRemoveKey | DDecrefItem, DDecrefItem
+  | DDecrefStuff, DDecrefStuff | DFree, DFree => true
+  | _, _ => false
+  end.
+Fixpoint dlist_eqb (a b : list dstep) : bool :=
+  match a, b with
+  | [], [] => true
+  | x :: a', y :: b' => dstep_eqb x y && dlist_eqb a' b'
+  | _, _ => false
+  end.
+(* a occurs, and b does not occur before the first a *)
+Fixpoint dbefore (a b : dstep) (l : list dstep) : bool :=
+  match l with
+  | [] => false
+  | x :: t => if dstep_eqb x a then true else if dstep_eqb x b then false else dbefore a b t
+  end.
+
+(* the fields ctypedescr_clear (tp_clear) resets *)
+Inductive cfield := FItem | FStuff | FUniqueKey | FOther.
+Definition cfield_eqb (a b : cfield) : bool :=
+  match a, b with
+  | FItem, FItem | FStuff, FStuff | FUniqueKey, FUniqueKey | FOther, FOther => true
   | _, _ => false
   end.
